@@ -109,6 +109,8 @@ def _is_result(v):
 def _ret_shape(v, depth=0):
     if isinstance(v, Enum) and depth < 3:
         return tuple((i, tuple(_ret_shape(p, depth + 1) for p in pl[:1])) for i, pl in sorted(v.variants.items()))
+    if isinstance(v, Int) and v.bits == 1 and v.is_const():
+        return ("b", v.lo)          # Ok(true) and Ok(false) are different outcomes
     return ()
 
 
@@ -637,6 +639,27 @@ class Engine(Interp):
     def call_closure(self, c, clo, args, st=None):
         """run closure value `clo` on args [(val, loc)]; -> list of (state, retval, retloc, frame)"""
         st = st or c.st
+        if isinstance(clo, FnItem):
+            # a function item used as a callable: an enum-variant constructor (`map(Known)`) builds the variant; a function of the program is run
+            path = mirlib.strip_generics(clo.callee.get("path", ""))
+            if "::" in path and len(args) >= 1:
+                adt_path, vname = path.rsplit("::", 1)
+                info = self.adt_info(adt_path)
+                names = [v["name"] for v in info["variants"]] if info and info.get("is_enum") else \
+                    {"std::option::Option": ["None", "Some"], "std::result::Result": ["Ok", "Err"]}.get(adt_path)
+                if names and vname in names:
+                    return [(st, Enum(adt_path, {names.index(vname): tuple(v for v, _ in args)}), None, None)]
+            fb = self.prog.bodies.get(path)
+            if fb is None or fb.kind == "closure":
+                return None
+            frame = c.frame
+            if frame.depth >= MAX_DEPTH or fb.key in frame.stack_paths():
+                return None
+            uid = frame.uid + ((c.bb, fb.name, len(c.results)),)
+            nf = Frame(fb, uid, {}, frame)
+            for i, (v, loc) in enumerate(args):
+                self.write_loc(st, (nf.cell(i + 1), ()), v, self.lin_of(st, v, loc) if isinstance(v, Int) else None, loc if not isinstance(v, Int) else None)
+            return [(s, s.cells.get(nf.cell(0), UNIT), (nf.cell(0), ()), nf) for s in self.run_body(nf, st)]
         if not isinstance(clo, Closure):
             return None
         body = self.prog.bodies.get(clo.def_path)
@@ -664,6 +687,8 @@ class Engine(Interp):
         return out
 
     def finish_closure(self, st, nf):
+        if nf is None:
+            return
         self.kill_frame(st, nf)
         st.cells.pop(("T", nf.uid, "env"), None)
 
